@@ -451,7 +451,10 @@ fn check_sys(c: &SysCase, p: &mut Probe) -> Check {
     let s = Scratch::new();
     let text = own_alist(&c.h, c.padded);
     let f = s.path("h.alist");
-    std::fs::write(&f, &text).map_err(|e| Fail::new(INCONCLUSIVE, format!("scratch write: {e}")))?;
+    // one matrix file in five is a named pipe fed in two pieces
+    let piped = text.len() % 5 == 2;
+    write_file_or_pipe(std::path::Path::new(&f), &text, piped).map_err(|e| Fail::new(INCONCLUSIVE, format!("scratch write: {e}")))?;
+    p.class_if(piped, "matrix-file-is-a-pipe");
     let r = run_cli(&sv(&["systematic", &f]), Duration::from_secs(60))?;
     let parsed = SparseMatrix::from_alist(&text).map_err(|e| Fail::new("harness", format!("own alist rejected: {e}")))?;
     match guarded(|| parity_to_systematic(&parsed)).map_err(|e| Fail::new("library-panic", format!("parity_to_systematic panicked: {e}")))? {
@@ -534,7 +537,10 @@ fn check_enc(c: &EncCase, p: &mut Probe) -> Check {
     // the alist file in the padded or in the unpadded form (both are accepted by the parser)
     let text = own_alist(&c.h, (c.words.len() + c.trailing) % 2 == 0);
     let (fa, fi, fo) = (s.path("h.alist"), s.path("in.bin"), s.path("out.bin"));
-    std::fs::write(&fa, &text).map_err(|e| Fail::new(INCONCLUSIVE, format!("scratch write: {e}")))?;
+    // one valid case in five: the alist file is a named pipe fed in two pieces
+    let piped = matches!(c.fault, EncFault::None) && text.len() % 5 == 2;
+    write_file_or_pipe(std::path::Path::new(&fa), &text, piped).map_err(|e| Fail::new(INCONCLUSIVE, format!("scratch write: {e}")))?;
+    p.class_if(piped, "matrix-file-is-a-pipe");
     let mut input: Vec<u8> = c.words.iter().flatten().copied().collect();
     let mut words = c.words.clone();
     if matches!(c.fault, EncFault::IndivisiblePattern) && words.is_empty() {
@@ -1063,7 +1069,7 @@ pub fn property() -> Property {
             }),
             Box::new(Sub {
                 name: "systematic",
-                rule: "generated matrix files (C09 generator incl. rank-deficient, plus shapes with more rows than columns): stdout equals the alist of parity_to_systematic, or non-zero status + message and no panic when the library returns an error; non-trivial = converted",
+                rule: "generated matrix files (C09 generator incl. rank-deficient, plus shapes with more rows than columns; one file in five a named pipe fed in two pieces): stdout equals the alist of parity_to_systematic, or non-zero status + message and no panic when the library returns an error; non-trivial = converted",
                 cases: |t| t.pick(1_500, 40_000),
                 strategy: sys_strategy,
                 check: check_sys,
@@ -1071,7 +1077,7 @@ pub fn property() -> Property {
             }),
             Box::new(Sub {
                 name: "encode",
-                rule: "generated systematic H (k >= 1, n = pattern length x block size up to 66, one case in 13 up to 440; alist file in the padded or the unpadded form), optional puncturing pattern dividing n, input file of 0..=5 (one case in 13: 700..=3000, i.e. several I/O buffers) complete words plus 0..k-1 trailing bytes: the output file is exactly the concatenation of the (punctured) codewords of the library encoder, nothing more; bad pattern, missing input, missing alist, pattern not dividing n: non-zero status, no panic; non-trivial = at least one word",
+                rule: "generated systematic H (k >= 1, n = pattern length x block size up to 66, one case in 13 up to 440; alist file in the padded or the unpadded form, for one valid case in five a named pipe fed in two pieces), optional puncturing pattern dividing n, input file of 0..=5 (one case in 13: 700..=3000, i.e. several I/O buffers) complete words plus 0..k-1 trailing bytes: the output file is exactly the concatenation of the (punctured) codewords of the library encoder, nothing more; bad pattern, missing input, missing alist, pattern not dividing n: non-zero status, no panic; non-trivial = at least one word",
                 cases: |t| t.pick(2_000, 40_000),
                 strategy: enc_strategy,
                 check: check_enc,
